@@ -1,0 +1,19 @@
+//go:build verif
+
+package maven
+
+// Machine-checked contracts for this package (checked by /verif/govc; see /verif/DESIGN.md).
+// This file contains comments only; it is compiled only under the build tag "verif".
+
+//@ func compareElements
+//@   requires e1.isNumber ==> isnum(e1.value)
+//@   requires !e1.isNumber ==> isstr(e1.value)
+//@   requires e2.isNumber ==> isnum(e2.value)
+//@   requires !e2.isNumber ==> isstr(e2.value)
+//@   comparator e1 ~ e2                                   [C01]
+
+//@ spec wfElems(es []element) bool = forall i int :: 0 <= i && i < len(es) ==> (es[i].isNumber ==> isnum(es[i].value)) && (!es[i].isNumber ==> isstr(es[i].value))
+
+//@ func (*Version).Compare
+//@   requires wfElems(v.elements) && wfElems(other.elements)
+//@   comparator v ~ other                                 [C01]
